@@ -510,6 +510,11 @@ def d2_items():
         yield 'eqdup/%s/enum_split' % tag, en('E', [variant('A', 'Unnamed', unnamed(2, [tys[0], PHT])), variant('B', 'Named', named(len(tys), tys[1:] + [PHU]))], [dw(ts, ['T'])], gen=g2), fail
     # union Clone only together with Copy of the union
     yield 'union/clone_only', un('Un', named(1, [PHT]), [dw(['Clone'])], gen=g1), True
+    yield 'union/clone_T_only', un('Un', named(2, [PHT, PHU]), [dw(['Clone'], ['T'])], gen=g2), True
+    yield 'union/clone_T__copy_T_2params', un('Un', named(2, [PHT, PHU]), [dw(['Clone'], ['T']), dw(['Copy'], ['T'])], gen=g2), False
+    yield 'union/clone_copy_T_2params', un('Un', named(2, [PHT, PHU]), [dw(['Clone', 'Copy'], ['T'])], gen=g2), False
+    yield 'union/clone_custom_only', un('Un', named(2, [PHT, PHU]), [dw(['Clone'], [('Pred', ['T', ':', 'Copy'])])], gen=g2), True
+    yield 'union/clone_mixed_only', un('Un', named(2, [PHT, PHU]), [dw(['Clone'], ['T', ('Pred', ['U', ':', 'Tr'])])], gen=g2), True
     yield 'union/clone_copy', un('Un', named(1, [PHT]), [dw(['Clone', 'Copy'])], gen=g1), False
     yield 'union/clone__copy', un('Un', named(1, [PHT]), [dw(['Clone']), dw(['Copy'])], gen=g1), False
     yield 'union/clone_T__copy_T', un('Un', named(1, [PHT]), [dw(['Clone'], ['T']), dw(['Copy'], ['T'])], gen=g1), False
